@@ -142,6 +142,67 @@ Section Text.
       destruct (sp mod 4)%nat as [|[|[|[|?]]]]; cbn [nth]; try lia; rewrite !forallb_app, label_nodelim, J by reflexivity; reflexivity.
   Qed.
 
+  (* ---- distinct keys have distinct texts (labels with distinct texts), except that a species key and an option key are both
+          just their label: KSp a and KOpt a print alike (they never share a section: [EAM-Embed] / [EAM-Density] hold species,
+          the other sections options) *)
+  Hypothesis label_inj : forall a b, ltext a = ltext b -> a = b.
+  Definition npc_head (t : list Z) : Prop := match t with [] => True | c :: _ => pc c = false end.
+  Lemma max_prefix a : forall a' t t', forallb pc a = true -> forallb pc a' = true -> npc_head t -> npc_head t' -> a ++ t = a' ++ t' -> a = a' /\ t = t'.
+  Proof.
+    induction a as [|c a IH]; intros a' t t' Ha Ha' Ht Ht' E.
+    - destruct a' as [|c' a']; [split; [reflexivity|exact E]|]. cbn [app] in E. subst t. cbn in Ht. cbn [forallb] in Ha'. apply andb_true_iff in Ha'. destruct Ha' as [H _]. congruence.
+    - cbn [forallb] in Ha. apply andb_true_iff in Ha. destruct Ha as [Hc Ha]. destruct a' as [|c' a'].
+      + cbn [app] in E. subst t'. cbn in Ht'. congruence.
+      + cbn [app] in E. injection E as -> E. cbn [forallb] in Ha'. apply andb_true_iff in Ha'. destruct Ha' as [_ Ha'].
+        destruct (IH a' t t' Ha Ha' Ht Ht' E) as [-> ->]. split; reflexivity.
+  Qed.
+  Lemma label_pc n : forallb pc (ltext n) = true. Proof. apply labels. Qed.
+  Lemma label_cons n : exists c t, ltext n = c :: t /\ pc c = true. Proof. apply label_head. Qed.
+  Lemma sep_join_inj ps : forall qs, sep_join [44] (map ltext ps) ++ [41] = sep_join [44] (map ltext qs) ++ [41] -> ps = qs.
+  Proof.
+    induction ps as [|p ps IH]; intros [|q qs] E; cbn [map sep_join app] in E; try reflexivity; try discriminate.
+    injection E as E. rewrite <- !app_assoc in E.
+    assert (T : forall l, npc_head (sep_join [44] (map ltext l) ++ [41])) by (intros [|x l]; reflexivity).
+    destruct (max_prefix _ _ _ _ (label_pc p) (label_pc q) (T ps) (T qs) E) as [Ep Er]. rewrite (label_inj _ _ Ep), (IH _ Er). reflexivity.
+  Qed.
+  Definition single_clash (k1 k2 : key) : Prop := exists a, (k1 = KSp a /\ k2 = KOpt a) \/ (k1 = KOpt a /\ k2 = KSp a).
+  Definition first_label (k : key) : nat := match k with KPair a _ | KSp a | KFS a _ | KSig a _ | KOpt a => a end.
+  Definition ktail (k : key) : list Z :=
+    match k with
+    | KPair _ b => [45] ++ ltext b | KSp _ | KOpt _ => [] | KFS _ b => [45; 62] ++ ltext b
+    | KSig _ ps => [40] ++ [114] ++ sep_join [44] (map ltext ps) ++ [41]
+    end.
+  Lemma canon_split k : canon k = ltext (first_label k) ++ ktail k /\ npc_head (ktail k).
+  Proof. destruct k; cbn [canon first_label ktail]; (split; [rewrite ?app_nil_r; reflexivity|reflexivity]). Qed.
+  Theorem canon_inj k1 k2 : canon k1 = canon k2 -> k1 = k2 \/ single_clash k1 k2.
+  Proof.
+    intro E. destruct (canon_split k1) as [E1 T1]. destruct (canon_split k2) as [E2 T2]. rewrite E1, E2 in E.
+    destruct (max_prefix _ _ _ _ (label_pc _) (label_pc _) T1 T2 E) as [El Et]. apply label_inj in El.
+    destruct k1 as [a b|a|a b|n ps|n], k2 as [c d|c|c d|m qs|m]; cbn [first_label ktail] in El, Et; subst; try discriminate;
+      try (left; reflexivity); try (right; eexists; left; split; reflexivity); try (right; eexists; right; split; reflexivity).
+    - cbn [app] in Et. injection Et as Et. left. f_equal. apply label_inj, Et.
+    - cbn [app] in Et. injection Et as Et. destruct (label_cons b) as (x & t & Eb & Hx). rewrite Eb in Et. injection Et as -> _. discriminate.
+    - cbn [app] in Et. injection Et as Et. destruct (label_cons d) as (x & t & Eb & Hx). rewrite Eb in Et. injection Et as <- _. discriminate.
+    - cbn [app] in Et. injection Et as Et. left. f_equal. apply label_inj, Et.
+    - cbn [app] in Et. injection Et as Et. left. f_equal. apply sep_join_inj, Et.
+  Qed.
+
+  Lemma zlist_eqb_true a : forall b, zlist_eqb a b = true -> a = b.
+  Proof.
+    induction a as [|x a IH]; intros [|y b] H; cbn in H; try discriminate; [reflexivity|].
+    apply andb_true_iff in H. destruct H as [H1 H2]. apply Z.eqb_eq in H1. subst. f_equal. apply IH, H2.
+  Qed.
+  Lemma compat_keys_of_inj (l : list key) : (forall k1 k2, In k1 l -> In k2 l -> ~ single_clash k1 k2) ->
+    compat_list key canon (fun a b => key_eqb a b) l = true.
+  Proof.
+    induction l as [|x r IH]; intro H; [reflexivity|]. cbn [compat_list]. apply andb_true_iff. split.
+    - apply forallb_forall. intros y Hy. destruct (zlist_eqb (canon x) (canon y)) eqn:E; [|apply orb_true_r].
+      apply zlist_eqb_true in E. destruct (canon_inj x y E) as [->|C].
+      + rewrite (proj2 (key_eqb_eq y y) eq_refl). reflexivity.
+      + exfalso. exact (H x y (or_introl eq_refl) (or_intror Hy) C).
+    - apply IH. intros k1 k2 H1 H2. apply H; right; assumption.
+  Qed.
+
   (* ---- sections *)
   Definition table_ws (sp : nat) : list Z * list Z := nth (sp mod 4) [([], []); ([32], []); ([], [32]); ([32; 32], [32])] ([], []).
   Definition sect_text (s : Store.sect) : list Z :=
